@@ -117,6 +117,7 @@ type TB struct {
 	False  *Term
 	ufs    map[string]ufSig
 	kb     []byte
+	small  map[int]*[256]*Term
 }
 
 type ufSig struct {
@@ -177,15 +178,45 @@ func maskW(w int) *big.Int {
 }
 
 func (b *TB) BVBig(v *big.Int, w int) *Term {
-	x := new(big.Int).And(v, maskW(w)) // two's complement wrap for negatives handled by And on big.Int? (no)
+	if v.Sign() >= 0 && v.BitLen() <= w {
+		if w <= 64 && v.BitLen() <= 8 {
+			return b.smallBV(v.Uint64(), w)
+		}
+		return b.mk(&Term{op: OConst, sort: SBV(w), val: v})
+	}
+	var x *big.Int
 	if v.Sign() < 0 {
 		m := new(big.Int).Lsh(bigOne, uint(w))
 		x = new(big.Int).Mod(v, m)
+	} else {
+		x = new(big.Int).And(v, maskW(w))
 	}
 	return b.mk(&Term{op: OConst, sort: SBV(w), val: x})
 }
 
-func (b *TB) BV(v uint64, w int) *Term { return b.BVBig(new(big.Int).SetUint64(v), w) }
+func (b *TB) smallBV(v uint64, w int) *Term {
+	if b.small == nil {
+		b.small = map[int]*[256]*Term{}
+	}
+	tbl := b.small[w]
+	if tbl == nil {
+		tbl = new([256]*Term)
+		b.small[w] = tbl
+	}
+	if t := tbl[v]; t != nil {
+		return t
+	}
+	t := b.mk(&Term{op: OConst, sort: SBV(w), val: new(big.Int).SetUint64(v)})
+	tbl[v] = t
+	return t
+}
+
+func (b *TB) BV(v uint64, w int) *Term {
+	if v < 256 && w <= 64 && (w >= 8 || v < 1<<uint(w)) {
+		return b.smallBV(v, w)
+	}
+	return b.BVBig(new(big.Int).SetUint64(v), w)
+}
 func (b *TB) BVI(v int64, w int) *Term { return b.BVBig(big.NewInt(v), w) }
 func (b *TB) IntBig(v *big.Int) *Term {
 	return b.mk(&Term{op: OConst, sort: SInt, val: new(big.Int).Set(v)})
